@@ -193,7 +193,13 @@ def chkStep (cfg : Cfg) (c : Chk) (opLine : String) (rec : String × List String
       let before : Obs := if fresh then Obs.empty else (c.impl[cur']!).getD Obs.empty
       let (after, stErr) := stLines.foldl (fun (acc : Obs × List String) l =>
         match applyStateLine acc.1 l with
-        | some o => if reprintStateLine o l == l then (o, acc.2) else (o, s!"ERR {k} round-trip: {l}" :: acc.2)
+        | some o =>
+          if reprintStateLine o l == l then (o, acc.2)
+          else if l.startsWith "G " then
+            -- a settings getter returned a value outside its domain (e.g. a flag that is neither 0 nor 1):
+            -- it cannot be "what was last written to that key" (C17)
+            (o, s!"MON C17 {k} {cur'}" :: acc.2)
+          else (o, s!"ERR {k} round-trip: {l}" :: acc.2)
         | none => (acc.1, s!"ERR {k} malformed state line: {l}" :: acc.2)) (before, [])
       -- model side
       let mevs := sortEvs (r.2.1.map EvObs.ofEvent)
